@@ -467,6 +467,8 @@ func main() {
 			rn.streamOrder(g)
 		case "conv":
 			rn.streamConv(g)
+		case "modes":
+			rn.streamModes(g)
 		default:
 			fmt.Fprintf(os.Stderr, "unknown stream %q\n", *stream)
 			os.Exit(2)
